@@ -1,6 +1,7 @@
 (* C13 — the wire rate never exceeds the negotiated ceiling. Statements only.
    Proved: X <= ceiling in every reachable rate-controller state (from C14), a frame of any kind is only
-   started with non-negative credit, step() caps the credit at round(X * rtt), and for a whole flush() of the
+   started with non-negative credit, step() caps the credit at round(X * rtt) and adds floor(X*t') - floor(X*t)
+   (independent of the step schedule, D20), and for a whole flush() of the
    HalfConnection (ack, data and sync frames, all loops): credit' = credit - bytes emitted exactly, nothing is
    emitted on a negative credit, and all frames but the last fit in the credit (HcCredit.v). The real-valued bound
    bytes <= ceiling * (interval + rtt) + one frame is checked on the implementation's frames with the
@@ -34,6 +35,21 @@ Theorem C13_credit_capped_by_rate_times_rtt :
 Proof. exact fill_flush_alloc_capped. Qed.
 Print Assumptions C13_credit_capped_by_rate_times_rtt.
 
+Theorem C13_credit_gain_is_refill :
+  forall h now t, h_last_flushed h = Some t ->
+    (hc_fill_flush_alloc h now <= sat_add_isize (h_credit h) (refill (sr_rate (h_src h)) t now))%Z.
+Proof. exact fill_flush_alloc_gain. Qed.
+
+(* the credit gained over any schedule of steps at one rate equals the gain of one step over the whole interval *)
+Theorem C13_refill_schedule_independent :
+  forall rate ts t0, refills rate t0 ts = refill rate t0 (last ts t0).
+Proof. exact refills_telescope. Qed.
+Print Assumptions C13_refill_schedule_independent.
+
+Example C13_refill_1750_per_ms :
+  refills 1750 0 (map N.of_nat (seq 1 2000)) = 3500%Z /\ refill 1750 0 2000 = 3500%Z /\ refill 1472 5000 5000 = 0%Z.
+Proof. vm_compute. repeat split. Qed.
+
 (* a whole flush: every emitted byte is charged, and frames only start while the credit is non-negative *)
 Theorem C13_flush_charges_every_byte :
   forall h h' out, hc_flush h = Ok (h', out) ->
@@ -54,3 +70,4 @@ Proof. exact build_data_frame_len. Qed.
 Check C13_rate_le_ceiling : forall m ops, MSS <= m -> sr_rate (fold_left rate_step ops (src_new m)) <= m.
 Check C13_flush_within_credit : forall h h' out, hc_flush h = Ok (h', out) ->
     ((h_credit h < 0)%Z -> out = []) /\ (forall pre l, out = pre ++ [l] -> (bytes_of pre <= h_credit h)%Z).
+Check C13_refill_schedule_independent : forall rate ts t0, refills rate t0 ts = refill rate t0 (last ts t0).
